@@ -217,3 +217,14 @@ Proof.
   - intros x X [E|[]]. subst. apply in_map_iff in X. destruct X as [kv [E X]].
     apply In_adel in X. destruct X as [_ X]. congruence.
 Qed.
+
+Lemma mkkey_inj pfx a b p q : pfx <> EmptyString -> mkkey pfx a p = mkkey pfx b q -> a = b /\ p = q.
+Proof.
+  unfold mkkey. intros N H. inversion H; subst. split; auto.
+  destruct a, b; auto; congruence.
+Qed.
+
+Arguments rset : simpl never.
+Arguments kdel : simpl never.
+Arguments aset : simpl never.
+Arguments adel : simpl never.
